@@ -1,1 +1,86 @@
-fn main() { rfsm_verif::hello(); }
+use rfsm_verif::engine::{driver_main, worker_main, RunConfig, Tier};
+
+fn main() {
+    let args: Vec<String> = std::env::args().collect();
+    if args.len() < 2 {
+        eprintln!("usage: rfsm_verif <ID> [--tier quick|thorough] [--seed N] [--cases N] [--jobs N] [--replay file] [--no-replay-tier]");
+        std::process::exit(2);
+    }
+    let id = args[1].clone();
+    if id == "eval" {
+        // probe: evaluate expression sources with the default store (zero tape) and print the results
+        rfsm_verif::engine::install_panic_hook();
+        for src in &args[2..] {
+            let mut t = rfsm_verif::tape::Tape::new(&[]);
+            let store = rfsm_verif::expr::default_store(&mut t);
+            let gd = rfsm_verif::exprrun::make_global(&store);
+            let r = rfsm_verif::exprrun::eval_fresh(src, &gd);
+            eprintln!("{:?} => {:?}", src, r);
+        }
+        return;
+    }
+    if id == "describe" {
+        // describe <ID> <phase> <idx> [seed]
+        let check = rfsm_verif::checks::by_id(&args[2]).expect("check id");
+        let phase: usize = args[3].parse().unwrap();
+        let idx: u64 = args[4].parse().unwrap();
+        let seed: u64 = args.get(5).and_then(|s| s.parse().ok()).unwrap_or(20260922);
+        let phases = check.phases(Tier::Quick);
+        let tape = match &phases[phase].kind {
+            rfsm_verif::engine::PhaseKind::Random { tape_len } => rfsm_verif::tape::random_tape(seed, check.id(), phase as u64, idx, *tape_len),
+            _ => idx.to_le_bytes().to_vec(),
+        };
+        println!("{}", check.describe(phase, &tape));
+        println!("tape_hex {}", rfsm_verif::tape::to_hex(&tape));
+        return;
+    }
+    let mut tier = match std::env::var("VERIF_TIER").ok().as_deref() {
+        Some("thorough") => Tier::Thorough,
+        _ => Tier::Quick,
+    };
+    let mut seed: u64 = std::env::var("VERIF_SEED").ok().and_then(|s| s.trim().parse::<i64>().ok()).map(|v| v as u64).unwrap_or(20260922);
+    let mut worker = false;
+    let mut cases = None;
+    let mut jobs = 16usize;
+    let mut replay = None;
+    let mut no_replay_tier = false;
+    let mut i = 2;
+    while i < args.len() {
+        match args[i].as_str() {
+            "--tier" => {
+                i += 1;
+                tier = if args[i] == "thorough" { Tier::Thorough } else { Tier::Quick };
+            }
+            "--seed" => {
+                i += 1;
+                seed = args[i].parse::<i64>().map(|v| v as u64).unwrap_or(seed);
+            }
+            "--cases" => {
+                i += 1;
+                cases = args[i].parse().ok();
+            }
+            "--jobs" => {
+                i += 1;
+                jobs = args[i].parse().unwrap_or(16);
+            }
+            "--replay" => {
+                i += 1;
+                replay = Some(args[i].clone());
+            }
+            "--worker" => worker = true,
+            "--no-replay-tier" => no_replay_tier = true,
+            _ => {}
+        }
+        i += 1;
+    }
+    let Some(check) = rfsm_verif::checks::by_id(&id) else {
+        eprintln!("unknown check {}", id);
+        std::process::exit(2);
+    };
+    if worker {
+        worker_main(check, tier, seed);
+        return;
+    }
+    let code = driver_main(check, RunConfig { tier, seed, jobs, cases_override: cases, replay, no_replay_tier });
+    std::process::exit(code);
+}
